@@ -371,6 +371,21 @@ func tableLookupsIn(info *types.Info, pkg *types.Package, body ast.Node) []table
 			}
 		case *ast.CallExpr:
 			fn := calleeOf(info, x)
+			// a membership method of a set type of the package called on a package-level set: blockElements.has(name).
+			// The key is what the method indexes its receiver with, in the caller's terms (helpers that only return an
+			// expression over their parameter — a key function — are unfolded).
+			if fn != nil && len(x.Args) == 1 && fn.Pkg() == pkg {
+				if se, ok := ast.Unparen(x.Fun).(*ast.SelectorExpr); ok {
+					if v, nm := pkgVar(se.X); v != nil {
+						if _, isMap := v.Type().Underlying().(*types.Map); isMap {
+							if key := setMethodKey(info, pkg, fn, x.Args[0], 0); key != nil {
+								out = append(out, tableLookup{Table: v, Name: nm, Key: key, Node: x})
+								return true
+							}
+						}
+					}
+				}
+			}
 			if fn == nil || len(x.Args) != 2 {
 				return true
 			}
@@ -524,4 +539,116 @@ func nameSetsIn(p *packages.Package, fd *ast.FuncDecl) []nameSet {
 	}
 	sort.Strings(ns.Names)
 	return append(out, ns)
+}
+
+// declOfFunc: the declaration of a function of the loaded packages.
+func declOfFunc(info *types.Info, fn *types.Func) *ast.FuncDecl {
+	for _, f := range loadedSyntax {
+		for _, d := range f.Decls {
+			if fd, ok := d.(*ast.FuncDecl); ok && info.Defs[fd.Name] == types.Object(fn) {
+				return fd
+			}
+		}
+	}
+	return nil
+}
+
+// substIdent returns e with every use of the object `from` replaced by `to` (a copy; e is not modified).
+func substIdent(info *types.Info, e ast.Expr, from types.Object, to ast.Expr) ast.Expr {
+	switch v := e.(type) {
+	case *ast.Ident:
+		if info.ObjectOf(v) == from {
+			return to
+		}
+		return v
+	case *ast.ParenExpr:
+		return &ast.ParenExpr{Lparen: v.Lparen, X: substIdent(info, v.X, from, to), Rparen: v.Rparen}
+	case *ast.CallExpr:
+		args := make([]ast.Expr, len(v.Args))
+		for i, a := range v.Args {
+			args[i] = substIdent(info, a, from, to)
+		}
+		return &ast.CallExpr{Fun: v.Fun, Lparen: v.Lparen, Args: args, Ellipsis: v.Ellipsis, Rparen: v.Rparen}
+	case *ast.BinaryExpr:
+		return &ast.BinaryExpr{X: substIdent(info, v.X, from, to), OpPos: v.OpPos, Op: v.Op, Y: substIdent(info, v.Y, from, to)}
+	case *ast.SelectorExpr:
+		return &ast.SelectorExpr{X: substIdent(info, v.X, from, to), Sel: v.Sel}
+	}
+	return e
+}
+
+// unfoldKeyFunc: a call of a package function whose body is a single `return <expression over its one parameter>` is
+// replaced by that expression over the argument (elementNameKey(x) → strings.ToLower(x)).
+func unfoldKeyFunc(info *types.Info, pkg *types.Package, e ast.Expr, depth int) ast.Expr {
+	call, ok := ast.Unparen(e).(*ast.CallExpr)
+	if !ok || len(call.Args) != 1 || depth > 2 {
+		return e
+	}
+	fn := calleeOf(info, call)
+	if fn == nil || fn.Pkg() != pkg {
+		return e
+	}
+	fd := declOfFunc(info, fn)
+	if fd == nil || fd.Body == nil || len(fd.Body.List) != 1 || fd.Recv != nil {
+		return e
+	}
+	ret, ok := fd.Body.List[0].(*ast.ReturnStmt)
+	if !ok || len(ret.Results) != 1 {
+		return e
+	}
+	prms := paramObjs(info, fd)
+	if len(prms) != 1 || prms[0] == nil {
+		return e
+	}
+	arg := unfoldKeyFunc(info, pkg, call.Args[0], depth+1)
+	return unfoldKeyFunc(info, pkg, substIdent(info, ret.Results[0], prms[0], arg), depth+1)
+}
+
+// setMethodKey: fn is a method with one parameter that looks its receiver up by (a function of) that parameter and
+// answers with the result; returns the key expression with the parameter replaced by arg, or nil.
+func setMethodKey(info *types.Info, pkg *types.Package, fn *types.Func, arg ast.Expr, depth int) ast.Expr {
+	fd := declOfFunc(info, fn)
+	if fd == nil || fd.Body == nil || fd.Recv == nil || len(fd.Recv.List) != 1 || len(fd.Recv.List[0].Names) != 1 {
+		return nil
+	}
+	robj := info.Defs[fd.Recv.List[0].Names[0]]
+	prms := paramObjs(info, fd)
+	if len(prms) != 1 || prms[0] == nil {
+		return nil
+	}
+	var key ast.Expr
+	n := 0
+	ast.Inspect(fd.Body, func(m ast.Node) bool {
+		if ix, ok := m.(*ast.IndexExpr); ok {
+			if id, ok := ast.Unparen(ix.X).(*ast.Ident); ok && info.ObjectOf(id) == robj {
+				key = ix.Index
+				n++
+			}
+		}
+		return true
+	})
+	if n != 1 || key == nil {
+		return nil
+	}
+	// the key may be a local assigned once from an expression over the parameter
+	if id, ok := ast.Unparen(key).(*ast.Ident); ok && info.ObjectOf(id) != prms[0] {
+		var def ast.Expr
+		nd := 0
+		ast.Inspect(fd.Body, func(m ast.Node) bool {
+			if as, ok := m.(*ast.AssignStmt); ok && len(as.Lhs) == len(as.Rhs) {
+				for i, l := range as.Lhs {
+					if lid, ok := l.(*ast.Ident); ok && info.ObjectOf(lid) == info.ObjectOf(id) {
+						def = as.Rhs[i]
+						nd++
+					}
+				}
+			}
+			return true
+		})
+		if nd != 1 {
+			return nil
+		}
+		key = def
+	}
+	return unfoldKeyFunc(info, pkg, substIdent(info, key, prms[0], arg), 0)
 }
